@@ -44,6 +44,30 @@ theorem cool1D_conservative_model (Nz : Nat) (hNz : 2 ≤ Nz) (col : Nat → ℝ
   intro j hj
   rw [coolStencil_eq_col1D Nz fo Tb Tt col j (Finset.mem_range.mp hj) hNz]
 
+/-- **`cool1D_conservative` for the model's step** (`Snow.coolField1D`, the temperature update of
+`_run_1D`'s cooling loop): the enthalpy change of the column in one step is exactly `dt` times
+the heat entering through the shelf, `K_shelf·(T_sh − T₀)`, plus the evaporative flux at the top,
+`qEvap` — which is zero unless the configuration is VISF and the time lies inside the vacuum
+window (`Stencil1D.qEvap_none`, `qEvap_outside`); nothing crosses anywhere else.
+`hfo` holds for the grid the code builds (`Stencil1D.grid1D_fo`). -/
+theorem cool1D_conservative_field (p : SnowIn ℝ) (g : Grid1D ℝ) (i : Nat) (T : Array ℝ) (Tsh : ℝ)
+    (hsz : T.size = g.Nz) (hNz : 2 ≤ g.Nz)
+    (hfo : g.fo = (g.lam0 / (p.const.cp_solution * p.const.rho_l)) * g.dt / (g.dz * g.dz))
+    (hrho : p.const.rho_l ≠ 0) (hcp : p.const.cp_solution ≠ 0) (hlam : g.lam0 ≠ 0) (hdz : g.dz ≠ 0) :
+    p.const.rho_l * p.const.cp_solution * g.dz *
+        ∑ j ∈ Finset.range g.Nz, (aget (coolField1D p g i T Tsh) j - aget T j)
+      = g.dt * (p.Kshelf * (Tsh - aget T 0)
+          + Snow.qEvap p Evap.vapourPressureLiquid (g.dt * (i : ℝ)) (aget T (g.Nz - 1))) := by
+  have h := cool1D_conservative g.Nz hNz (aget T) p.const.rho_l p.const.cp_solution g.lam0 g.dz g.dt
+    (p.Kshelf * (Tsh - aget T 0))
+    (Snow.qEvap p Evap.vapourPressureLiquid (g.dt * (i : ℝ)) (aget T (g.Nz - 1))) hrho hcp hlam hdz
+  rw [← h]
+  congr 1
+  apply Finset.sum_congr rfl
+  intro j hj
+  have hj' : j < T.size := by rw [hsz]; exact Finset.mem_range.mp hj
+  rw [coolField1D_get p g i T Tsh (by omega) j hj', hsz, hfo]
+
 /-! ### nucleation is adiabatic -/
 
 /-- core of the nucleation quadratic.  `a = Δh·m_w/(c_p·m)`, `δ` = freezing-point
@@ -425,10 +449,18 @@ alias solid1D_is_model := Stencil1D.solidStep1D_eq_solid1D
 /-- the hypotheses of `nucleation_adiabatic` hold for the default 5 % sucrose solution
 at −10 °C: `nuc_phys` is instantiated on concrete numbers -/
 theorem nonvacuous :
-    ∃ Ts mi : ℝ, (4040 : ℝ) * 1 * (Ts - 263.15) = 333550 * mi ∧ 263.15 < Ts ∧ 0 < mi ∧ mi < 0.95 := by
-  have h := nuc_phys 4040 1 333550 0.95 0.05 (1.853 / 0.3423) 273.15 263.15
-    (by norm_num) (by norm_num) (by norm_num) (by norm_num) (by norm_num) (by norm_num) (by norm_num)
-    _ _ _ _ rfl rfl rfl rfl
-  exact ⟨_, _, h.1, h.2.1, h.2.2.2.1, h.2.2.2.2⟩
+    (∃ Ts mi : ℝ, (4040 : ℝ) * 1 * (Ts - 263.15) = 333550 * mi ∧ 263.15 < Ts ∧ 0 < mi ∧ mi < 0.95) ∧
+    -- every hypothesis of `nucleation_adiabatic` on the default configuration `pDef`, node at -10 °C
+    (0 < pDef.cp_solution ∧ 0 < pDef.mass ∧ 0 < pDef.Dh ∧ 0 < pDef.mass_water ∧ 0 < pDef.mass_solute
+      ∧ 0 < pDef.k_f / pDef.M_s
+      ∧ pDef.depression = pDef.k_f / pDef.M_s * (pDef.mass_solute / pDef.mass_water)
+      ∧ (263.15 : ℝ) < TeqL pDef) := by
+  constructor
+  · have h := nuc_phys 4040 1 333550 0.95 0.05 (1.853 / 0.3423) 273.15 263.15
+      (by norm_num) (by norm_num) (by norm_num) (by norm_num) (by norm_num) (by norm_num) (by norm_num)
+      _ _ _ _ rfl rfl rfl rfl
+    exact ⟨_, _, h.1, h.2.1, h.2.2.2.1, h.2.2.2.2⟩
+  · refine ⟨?_, ?_, ?_, ?_, ?_, ?_, ?_, ?_⟩ <;>
+      simp only [pDef, TeqL, Tm, kelvin, lit_real] <;> norm_num
 
 end Snow.C02
